@@ -12,6 +12,7 @@ def run(ctx):
     _p12a(ctx)
     _p12b(ctx)
     _p12c(ctx)
+    _p12d(ctx)
     _w12(ctx)
     _p13(ctx)
     _p13d(ctx)
@@ -192,6 +193,32 @@ def _p13d(ctx):
         ctx.add('P13d', 'T-GUARD', fn, ok, 'a new batch of retired objects is installed only when the previous cycle completed (completed epoch == current epoch / batch empty)' if ok else
                 'start_free can overwrite a pending batch of retired objects (the guard is not "completed epoch == current epoch"): the overwritten batch is dropped without being deleted and leaks',
                 where=g.where(w), sub='add_freeable')
+
+
+def _p12d(ctx):
+    """a handle gives up its token only after its last access to shared bookkeeping: once the token is
+    removed the handle no longer holds back reclamation, so nothing it still reads may be retired memory"""
+    roots = [ctx.fn1(r'^<multiqueue::InnerRecv<.*> as std::ops::Drop>::drop$'),
+             ctx.fn1(r'^<multiqueue::FutInnerRecv<.*> as std::ops::Drop>::drop$'),
+             ctx.fn1(r'^<multiqueue::FutInnerUniRecv<.*> as std::ops::Drop>::drop$'),
+             ctx.fn1(r'^<multiqueue::InnerSend<.*> as std::ops::Drop>::drop$')]
+    for r in roots:
+        g = ctx.graph(r, 'MPMC')
+        x = g.x
+        rts = x.inlined(r'memory::MemoryManager::remove_token$')
+        shared = [a for a in x.atoms.values() if a.nid == x.rep(a.nid) and a.on('ReadCursor.readers', 'ReaderPos.pos_data', 'ReaderGroup.readers', 'QueueEntry.')]
+        lists = x.ext_calls(r'Vec(::<.*>)?::(clone|len|is_empty)$|IntoIterator::into_iter$')
+        late = []
+        for rt in rts:
+            for a in shared:
+                if x.reaches(rt, a.nid):
+                    late.append(x.describe(a.nid))
+            for c in lists:
+                if x.reaches(rt, c) and any(p_.endswith('ReaderGroup.readers') for p_ in g.locpaths(g.call_args(c)[0])):
+                    late.append(x.describe(c))
+        ctx.add('P12d', 'T-REACH', r, not late, 'the token is removed only after the handle\'s last access to the stream list / positions' if not late else
+                '%s removes its reclamation token and afterwards still accesses shared bookkeeping (%s): that memory can be reclaimed underneath it' % (short_fn(r), sorted(set(late))[:3]),
+                sub='token-last')
 
 
 def _w12(ctx):
